@@ -545,9 +545,9 @@ func checkC08() fw.Check {
 				instants = append(instants, b-time.Microsecond, b, b+time.Microsecond)
 			}
 			rr := rand.New(rand.NewSource(seed))
-			nrand := 30
+			nrand := 100
 			if tier == "thorough" {
-				nrand = 600
+				nrand = 1500
 			}
 			for i := 0; i < nrand; i++ {
 				instants = append(instants, time.Duration(rr.Int63n(int64(3400*time.Millisecond))))
@@ -569,9 +569,9 @@ func checkC08() fw.Check {
 					}
 				}
 			}
-			n := 25
+			n := 60
 			if tier == "thorough" {
-				n = 400
+				n = 1200
 			}
 			for i := 0; i < n; i++ {
 				cases = append(cases, fw.Case{ID: fmt.Sprintf("C08/publicip/%d", i), Bubble: true, Run: func(c *fw.Ctx) { runC08PublicIP(c, c.ID, c.Rng) }})
